@@ -2,8 +2,8 @@
 use std::ops::{Index, IndexMut};
 
 use chemical_elements::{
-    ChemicalComposition, ChemicalCompositionLike, ChemicalCompositionMap, ChemicalCompositionVec,
-    ElementSpecification, PERIODIC_TABLE,
+    ChemicalComposition, ChemicalCompositionLike, ChemicalCompositionMap, ChemicalCompositionRef,
+    ChemicalCompositionVec, ElementSpecification, PERIODIC_TABLE,
 };
 
 use crate::util::guarded;
@@ -117,6 +117,28 @@ impl Reg {
         let (tm, tl, te, tv) = each!(self, c => t_view(c));
         if tm.to_bits() != mass.to_bits() || tl != len || te != empty || tv != ents {
             len_s.push_str("!trait-view-differs");
+        }
+        // ... and so must the borrowed view `ChemicalCompositionRef`
+        let rv = match self {
+            Reg::Vec(c) => ChemicalCompositionRef::Vec(c),
+            Reg::Map(c) => ChemicalCompositionRef::Map(c),
+            Reg::Enum(c) => ChemicalCompositionRef::from(c),
+        };
+        let mut rents: Vec<(String, u16, i32)> = rv.iter().map(|(k, v)| (k.element.symbol.clone(), k.isotope, *v)).collect();
+        rents.sort();
+        let mut same = rv.mass().to_bits() == mass.to_bits() && rv.calc_mass().to_bits() == calc.to_bits()
+            && rv.has_mass_cached() == cached && rv.is_empty() == empty && rv.len() == len && rents == ents;
+        let keys: Vec<Spec> = rv.iter().map(|(k, _)| *k).collect();
+        for k in keys.iter() {
+            let direct = each!(self, c => c.get(k));
+            let text = k.to_string();
+            same &= rv.get(k) == direct && rv[k] == direct && rv[text.as_str()] == each!(self, c => c[text.as_str()]);
+        }
+        if let Some(absent) = key("Xe:0") {
+            same &= rv.get(&absent) == each!(self, c => c.get(&absent)) && rv["Xe"] == each!(self, c => c["Xe"]);
+        }
+        if !same {
+            len_s.push_str("!ref-view-differs");
         }
         format!("{}|{}|{}|{}|{}|{}", self.form(), cached as u8, micro(mass), micro(calc), len_s, e)
     }
